@@ -7,12 +7,19 @@ probe; the model predicts that number (a = 1, b = 0).  The oracle is independent
 is run on the real code at n = 10 … 24, and neither the deepest probe nor the true maximum depth (sys.setprofile
 call counter, includes leaf frames the model ignores) at the case's n may exceed what is seen there; every probe
 must have run and the final results must be the family's, with the default recursion limit.
+
+Every family is also run under the modes / input classes the statement does not exclude and the model does not know
+(the prediction must not change): `dbg` Deferred debugging on, `cls` instances of a Deferred subclass, `mk` already-fired
+Deferreds made by succeed() / fail(), `api` callbacks installed with addCallbacks(f, f) instead of addBoth(f), `nil` the
+results are None; failures outside the `Exception` hierarchy (`B`), the same Deferred awaited again and again (`gensame`),
+generators that also yield things that are not Deferreds (`genplain`, item `v`).  White-box mutants: harness/mutants/C02.
 """
 import random
 import re
 import sys
 import warnings
 
+from twisted.internet import defer as _defer
 from twisted.internet.defer import AlreadyCalledError, Deferred, inlineCallbacks
 from twisted.python.failure import Failure
 
@@ -23,13 +30,21 @@ RULE = ("(a) the five scenarios of the theorems (`shape`: outer-first / inner-fi
         "in outer / inner / random / interleaved order, paused links, late-added callbacks, one Deferred with n callbacks returning "
         "fired Deferreds, generators over unfired / mixed Deferreds, coroutines) at the same sizes; (c) random small programs "
         "over <= 6 Deferreds, <= 2 generators, <= 14 operations including chainDeferred, pause/unpause, double fire, self-return; "
-        "distinct = (kind, family/order/outcome, size bucket, set of probe depths, raised?)")
+        "(d) every shape / family again at n in {11, 37, 300, 1000 (+3000, one flag at 20000 thorough)} under each of the flags dbg (Deferred "
+        "debugging on; n <= 300 quick, <= 1000 thorough), cls (Deferred subclass), nil (results are None), mk (succeed()/fail()), api (addCallbacks(f, f)) and "
+        "a random combination; k = 2 of the chain families fires the last Deferred with a failure outside `Exception`; families gensame "
+        "(one Deferred awaited n times, fired before / after the first await), genplain (non-Deferred yields alone / interleaved with "
+        "already-fired, also failed, Deferreds), genbase (the last awaited Deferred failed outside `Exception`, not caught by the body: "
+        "oracle-only); random programs get dbg / cls with p = 0.15, `v` items, value None, `B` failures; "
+        "distinct = (kind, family/order/outcome, flags, size bucket, set of probe depths, raised?)")
 ASSUMES = [
-    "user code is the callback grammar of the model: probe / return Deferred j / return value / raise / chainDeferred, all added with addBoth; "
-    "generator bodies are `for d in ds: try: r = yield d (await d) except: ...; probe()`",
+    "user code is the callback grammar of the model: probe / return Deferred j / return value / raise / chainDeferred, all added with addBoth "
+    "(or addCallbacks(f, f)); generator bodies are `for d in ds: try: r = yield d (await d, yield <not a Deferred>) except Exception: ...; probe()`; "
+    "generators that yield coroutine / generator objects, and ensureDeferred() as the entry point, are not generated",
     "CPython frames are abstracted: the model counts one unit per Python-level function activation on the path to the probe; "
     "leaf helpers and C-level calls are not counted (the oracle measures the true maximum with sys.setprofile for n <= 20000)",
-    "recursion limit is the default (1000); Deferred.debug is off",
+    "recursion limit is the default (1000); Deferred debugging is off or on (flag dbg; the true-depth baseline is taken in the same mode, "
+    "after linecache has been warmed so that traceback.format_stack has the same depth in every run)",
     "unpause() is only called to match an earlier pause() (unpausing a Deferred that waits on another one makes the real code loop forever; the model runs out of fuel there)",
 ]
 TRUSTED = ["sys._getframe / sys.setprofile report the interpreter's frame stack faithfully"]
@@ -40,8 +55,12 @@ MANIFEST = {
             "than 4 (the `chain` list of _runCallbacks makes it iterative); the outer-first and inner-first chains of every length n complete "
             "(all n+1 probes run at depth exactly 4, d_0 receives the last result, success or failure); a generator or coroutine over n "
             "pre-fired Deferreds with any failure pattern completes with every probe at depth <= 6 (the `waiting` flag of _inlineCallbacks); "
+            "a generator yielding n things that are not Deferreds completes with every probe at depth exactly 5 (the loop goes round again, no self-call); "
             "negative control: an explicit chainDeferred chain of length n reaches depth exactly 3n+4. Model tied to defer.py by "
-            "differential runs that compare exact Python frame counts (sys._getframe walk) for n up to 10^4 (quick) / 10^5 (thorough).",
+            "differential runs that compare exact Python frame counts (sys._getframe walk) for n up to 10^4 (quick) / 10^5 (thorough), "
+            "also with Deferred debugging on, with Deferred subclasses, succeed()/fail(), addCallbacks, None results and BaseException failures "
+            "(same prediction required); mixtures of plain yields and Deferreds and a generator meeting an uncaught BaseException failure are "
+            "tied / judged by the oracle only (no theorem quantifies over them).",
     "note": "partial: frames of CPython are a hand abstraction (one unit per Python-level activation; C calls and leaf helpers not counted) — "
             "the theorem is about the algorithm's nesting, the measured frame counts tie it; trusts Lean kernel, the hand-written model of "
             "_runCallbacks/_inlineCallbacks/__iter__ (differentially tied on exact frame depth), sys._getframe",
@@ -57,6 +76,17 @@ class UserError(Exception):
     pass
 
 
+class UserBaseError(BaseException):
+    """a failure outside the `Exception` hierarchy (what KeyboardInterrupt / asyncio.CancelledError / GeneratorExit are)"""
+
+
+class SubDeferred(Deferred):
+    """a Deferred subclass (DeferredList, DeferredQueue's helpers, application subclasses): `type(d) is not Deferred`"""
+
+
+FLAGS = ("dbg", "cls", "nil", "mk", "api")
+
+
 # ------------------------------------------------------------------------------------------
 # expansion of shapes / families into programs  {"defs": [[cb..]..], "gens": [[out,[item..]]..], "ops": [op..]}
 
@@ -65,23 +95,33 @@ def _pattern(k, i):
 
 
 def expand(c):
-    kind = c["kind"]
-    if kind == "prog":
+    """the program of a case; the flags of the case (`dbg`, `cls`, `nil`, `mk`) are carried over to the program"""
+    if c["kind"] == "prog":
         return c
+    p = _expand(c)
+    for fl in FLAGS:
+        if c.get(fl):
+            p[fl] = 1
+    return p
+
+
+def _expand(c):
+    kind = c["kind"]
     n, k = c["n"], c.get("k", 0)
     name = c["name"]
-    last = (f"E{n}:5" if k == 1 else f"F{n}:5")
+    V1, V5 = (0, 0) if c.get("nil") else (1, 5)         # value 0 is fired as `None` (the most common result of all)
+    last = (f"E{n}:5" if k == 1 else f"B{n}:5" if k == 2 and name in BASE_LAST else f"F{n}:{V5}")
     chain_defs = [[f"r{i+1}", "p"] for i in range(n)] + [["p"]]
     if kind == "shape":
         if name == "outer":
-            return {"defs": chain_defs, "gens": [], "ops": [f"F{i}:1" for i in range(n)] + [last]}
+            return {"defs": chain_defs, "gens": [], "ops": [f"F{i}:{V1}" for i in range(n)] + [last]}
         if name == "inner":
-            return {"defs": chain_defs, "gens": [], "ops": [last] + [f"F{i}:1" for i in reversed(range(n))]}
+            return {"defs": chain_defs, "gens": [], "ops": [last] + [f"F{i}:{V1}" for i in reversed(range(n))]}
         if name == "explicit":
-            return {"defs": [["p", f"f{i+1}"] for i in range(n)] + [["p"]], "gens": [], "ops": ["F0:5"]}
+            return {"defs": [["p", f"f{i+1}"] for i in range(n)] + [["p"]], "gens": [], "ops": [f"F0:{V5}"]}
         if name in ("gen", "coro"):
             it = "a" if name == "coro" else "y"
-            pre = [(f"E{i}:3" if _pattern(k, i) else f"F{i}:1") for i in range(n)]
+            pre = [(f"E{i}:3" if _pattern(k, i) else f"F{i}:{V1}") for i in range(n)]
             return {"defs": [[] for _ in range(n + 1)], "gens": [[n, [f"{it}{i}" for i in range(n)]]],
                     "ops": pre + ["S0", f"A{n}:p"], "pre": n}
     # families -----------------------------------------------------------------------------
@@ -89,61 +129,84 @@ def expand(c):
     if name == "perm":          # returns-next chain fired in a random order
         order = list(range(n)); rng.shuffle(order)
         pos = rng.randrange(n + 1)
-        ops = [f"F{i}:1" for i in order]
+        ops = [f"F{i}:{V1}" for i in order]
         ops.insert(pos, last)
         return {"defs": chain_defs, "gens": [], "ops": ops}
     if name == "evenodd":       # even links first (each waits on an unfired one), then odd links downwards, then the last
         ev = [i for i in range(n) if i % 2 == 0]; od = [i for i in range(n) if i % 2 == 1]
-        return {"defs": chain_defs, "gens": [], "ops": [f"F{i}:1" for i in ev] + [f"F{i}:1" for i in reversed(od)] + [last]}
+        return {"defs": chain_defs, "gens": [], "ops": [f"F{i}:{V1}" for i in ev] + [f"F{i}:{V1}" for i in reversed(od)] + [last]}
     if name == "lastmid":       # outer half, last, then the inner half upwards
         h = n // 2
-        return {"defs": chain_defs, "gens": [], "ops": [f"F{i}:1" for i in range(h)] + [last] + [f"F{i}:1" for i in reversed(range(h, n))]}
+        return {"defs": chain_defs, "gens": [], "ops": [f"F{i}:{V1}" for i in range(h)] + [last] + [f"F{i}:{V1}" for i in reversed(range(h, n))]}
     if name == "paused":        # every k-th link (k>=2) / the last one is paused when fired and unpaused at the end, innermost first
         m = max(2, k)
         ps = [i for i in range(n + 1) if i % m == m - 1] or [n]
-        ops = [f"P{i}" for i in ps] + [f"F{i}:1" for i in range(n)] + [f"F{n}:5"] + [f"U{i}" for i in reversed(ps)]
+        ops = [f"P{i}" for i in ps] + [f"F{i}:{V1}" for i in range(n)] + [f"F{n}:{V5}"] + [f"U{i}" for i in reversed(ps)]
         return {"defs": chain_defs, "gens": [], "ops": ops}
     if name == "pausedinner":   # inner-first with paused fired links: returned Deferred has a result but is paused -> chain, not steal
         m = max(2, k)
         ps = [i for i in range(1, n + 1) if i % m == 0] or [n]
-        ops = [f"P{i}" for i in ps] + [f"F{n}:5"] + [f"F{i}:1" for i in reversed(range(n))] + [f"U{i}" for i in ps]
+        ops = [f"P{i}" for i in ps] + [f"F{n}:{V5}"] + [f"F{i}:{V1}" for i in reversed(range(n))] + [f"U{i}" for i in ps]
         return {"defs": chain_defs, "gens": [], "ops": ops}
     if name == "late":          # all fired first (innermost first / outermost first by k), callbacks added afterwards
         defs = [[] for _ in range(n + 1)]
-        fires = [f"F{i}:1" for i in range(n)] + [f"F{n}:5"]
+        fires = [f"F{i}:{V1}" for i in range(n)] + [f"F{n}:{V5}"]
         adds = []
         idx = range(n) if k == 0 else reversed(range(n))
         for i in idx:
             adds += [f"A{i}:r{i+1}", f"A{i}:p"]
-        return {"defs": defs, "gens": [], "ops": fires + adds + [f"A{n}:p"]}
+        return {"defs": defs, "gens": [], "ops": fires + adds + [f"A{n}:p"], "pre": n + 1}
     if name == "fanin":         # ONE Deferred with n callbacks, each returning an already fired Deferred, probes in between
         defs = [[x for i in range(n) for x in (f"r{i+1}", "p")]] + [[] for _ in range(n)]
-        pre = [(f"E{i+1}:3" if _pattern(k, i) else f"F{i+1}:1") for i in range(n)]
-        return {"defs": defs, "gens": [], "ops": pre + ["F0:5"]}
+        pre = [(f"E{i+1}:3" if _pattern(k, i) else f"F{i+1}:{V1}") for i in range(n)]
+        return {"defs": defs, "gens": [], "ops": pre + [f"F0:{V5}"], "pre": n}
     if name == "faninwait":     # ONE Deferred with n callbacks each returning an UNFIRED Deferred, fired afterwards in order
         defs = [[x for i in range(n) for x in (f"r{i+1}", "p")]] + [[] for _ in range(n)]
-        return {"defs": defs, "gens": [], "ops": ["F0:5"] + [(f"E{i+1}:3" if _pattern(k, i) else f"F{i+1}:1") for i in range(n)]}
+        return {"defs": defs, "gens": [], "ops": [f"F0:{V5}"] + [(f"E{i+1}:3" if _pattern(k, i) else f"F{i+1}:{V1}") for i in range(n)]}
     if name in ("genlater", "corolater"):   # generator over n unfired Deferreds, fired one by one afterwards
         it = "a" if name == "corolater" else "y"
         return {"defs": [[] for _ in range(n + 1)], "gens": [[n, [f"{it}{i}" for i in range(n)]]],
-                "ops": ["S0", f"A{n}:p"] + [(f"E{i}:3" if _pattern(k, i) else f"F{i}:1") for i in range(n)]}
+                "ops": ["S0", f"A{n}:p"] + [(f"E{i}:3" if _pattern(k, i) else f"F{i}:{V1}") for i in range(n)]}
     if name in ("genmixed", "coromixed", "yfmixed"):  # first unfired, the rest randomly pre-fired / unfired
         it = {"genmixed": "y", "coromixed": "a", "yfmixed": None}[name]
         pref = [False] + [rng.random() < 0.7 for _ in range(n - 1)] if n else []
         items = [f"{it or rng.choice('ya')}{i}" for i in range(n)]
-        fire = lambda i: (f"E{i}:3" if _pattern(k, i) else f"F{i}:1")
+        fire = lambda i: (f"E{i}:3" if _pattern(k, i) else f"F{i}:{V1}")
         return {"defs": [[] for _ in range(n + 1)], "gens": [[n, items]],
                 "ops": [fire(i) for i in range(n) if pref[i]] + ["S0", f"A{n}:p"] + [fire(i) for i in range(n) if not pref[i]]}
     if name == "genchain":      # the generator's single awaited Deferred is the head of a returns-next chain of length n
         it = "a" if k >= 2 else "y"
         defs = chain_defs + [[]]
         return {"defs": defs, "gens": [[n + 1, [f"{it}0"]]],
-                "ops": ["S0", f"A{n+1}:p"] + [f"F{i}:1" for i in range(n)] + [f"E{n}:5" if k % 2 else f"F{n}:5"]}
+                "ops": ["S0", f"A{n+1}:p"] + [f"F{i}:{V1}" for i in range(n)] + [f"E{n}:5" if k % 2 else f"F{n}:{V5}"]}
+    if name == "gensame":       # ONE Deferred awaited n times: k=0/2 already fired (yield / await), k=1/3 fired after the first await
+        it = "a" if k >= 2 else "y"
+        fire = [f"F0:{V1}"]
+        return {"defs": [[], []], "gens": [[1, [f"{it}0"] * n]],
+                "ops": (fire if k % 2 == 0 else []) + ["S0", "A1:p"] + (fire if k % 2 == 1 else []),
+                "pre": 1 if k % 2 == 0 else 0}
+    if name == "genplain":      # generator over pre-fired Deferreds that also yields things that are not Deferreds
+        if k == 0:              #   n plain yields and nothing else
+            return {"defs": [[]], "gens": [[0, ["v1"] * n]], "ops": ["S0", "A0:p"]}
+        #   k=1: d, 5, d, 5, …   k=2: d, d, None, …   k=3: as k=1 with every second Deferred failed
+        items, m = [], (3 if k == 2 else 2)
+        for i in range(n):
+            items.append(f"y{i}")
+            if i % (m - 1) == m - 2:
+                items.append("v0" if k == 2 else "v5")
+        pre = [(f"E{i}:3" if (k == 3 and i % 2) else f"F{i}:{V1}") for i in range(n)]
+        return {"defs": [[] for _ in range(n + 1)], "gens": [[n, items]], "ops": pre + ["S0", f"A{n}:p"], "pre": n}
+    if name == "genbase":       # n pre-fired Deferreds, the LAST failed outside the Exception hierarchy: the body's
+        it = "a" if k == 1 else "y"          # `except Exception` does not catch it, the call must end with that failure
+        pre = [f"F{i}:{V1}" for i in range(n - 1)] + ([f"B{n-1}:9"] if n else [])
+        return {"defs": [[] for _ in range(n + 1)], "gens": [[n, [f"{it}{i}" for i in range(n)]]],
+                "ops": pre + ["S0", f"A{n}:p"], "pre": n}
     raise ValueError(name)
 
 
+BASE_LAST = {"outer", "inner", "perm", "evenodd", "lastmid"}       # k = 2: the last Deferred fails with a BaseException
 IN_SCOPE = {"outer", "inner", "gen", "coro", "perm", "evenodd", "lastmid", "paused", "pausedinner", "late", "fanin",
-            "faninwait", "genlater", "corolater", "genmixed", "coromixed", "yfmixed", "genchain"}
+            "faninwait", "genlater", "corolater", "genmixed", "coromixed", "yfmixed", "genchain", "gensame", "genplain", "genbase"}
 
 
 # ------------------------------------------------------------------------------------------
@@ -159,7 +222,10 @@ class _World:
         self.truemax = 0
         self.recursion = False
         defs, gens = prog["defs"], prog["gens"]
-        self.ds = [Deferred() for _ in defs]
+        cls = SubDeferred if prog.get("cls") else Deferred
+        self.ds = [cls() for _ in defs]
+        self.mk = prog.get("pre", 0) if prog.get("mk") else 0      # that many leading fire ops become succeed() / fail()
+        self.api = bool(prog.get("api"))                           # addCallbacks(f, f) instead of addBoth(f)
         for i, cbs in enumerate(defs):
             for cb in cbs:
                 self.install(i, cb)
@@ -201,6 +267,9 @@ class _World:
     def install(self, i, cb):
         if cb[0] == "f":
             self.ds[i].chainDeferred(self.ds[int(cb[1:])])
+        elif self.api:
+            f = self.fn(cb)
+            self.ds[i].addCallbacks(f, f)
         else:
             self.ds[i].addBoth(self.fn(cb))
 
@@ -208,6 +277,7 @@ class _World:
         out, items = self.gens[g]
         ds, probe0 = self.ds, self.probe0
         items = [(it[0], int(it[1:])) for it in items]
+        plain = lambda v: (None if v == 0 else v)
         if items and all(k == "a" for k, _ in items):
             async def co():
                 for _, i in items:
@@ -227,6 +297,8 @@ class _World:
                     try:
                         if k == "y":
                             r = yield ds[i]
+                        elif k == "v":
+                            r = yield plain(i)          # not a Deferred: sent straight back
                         else:
                             r = yield from ds[i]
                     except Exception:
@@ -241,20 +313,24 @@ class _World:
         t, a = o[0], o[1:]
         if t == "S":
             return self.start(int(a))
-        if t in "FEA":
+        if t in "FEBA":
             i, x = a.split(":")
             i = int(i)
         else:
             i = int(a)
         d = ds[i]
-        f = Failure(UserError(int(x))) if t == "E" else None
+        f = Failure(UserError(int(x))) if t == "E" else Failure(UserBaseError(int(x))) if t == "B" else None
+        if self.mk > 0 and t in "FEB" and not d.called and not d.callbacks:
+            self.mk -= 1                 # the usual way to make an already-fired Deferred
+            ds[i] = _defer.succeed(None if x == "0" else int(x)) if t == "F" else _defer.fail(f)
+            return
         if t == "A":
             target = ds[int(x[1:])] if x[0] == "f" else self.fn(x)
         self.base = sys._getframe(0)
         try:
             if t == "F":
-                d.callback(int(x))
-            elif t == "E":
+                d.callback(None if x == "0" else int(x))
+            elif t in "EB":
                 d.errback(f)
             elif t == "P":
                 d.pause()
@@ -263,6 +339,8 @@ class _World:
             elif t == "A":
                 if x[0] == "f":
                     d.chainDeferred(target)
+                elif self.api:
+                    d.addCallbacks(target, target)
                 else:
                     d.addBoth(target)
         except AlreadyCalledError:
@@ -300,6 +378,8 @@ class _World:
         if isinstance(r, Failure):
             if isinstance(r.value, UserError):
                 return f"f{r.value.args[0]}"
+            if isinstance(r.value, UserBaseError):
+                return f"fb{r.value.args[0]}" if self.gens else f"f{r.value.args[0]}"
             if isinstance(r.value, AlreadyCalledError):
                 return "f-99"
             if isinstance(r.value, RecursionError):
@@ -330,17 +410,52 @@ def _size(prog):
     return len(prog["defs"]) + len(prog["ops"]) + sum(len(g[1]) for g in prog["gens"])
 
 
+_WARM = []
+
+
+def _warm_debug():
+    """Deferred debugging formats the stack at every creation / firing: load the source lines of every file on
+    the stack into linecache once, outside the measured region (the first format_stack is much deeper than the rest)"""
+    if _WARM:
+        return
+    _WARM.append(1)
+    _defer.setDebugging(True)
+    try:
+        d = Deferred()
+        d.addBoth(lambda r: _defer.succeed(r))
+        d.callback(1)
+
+        @inlineCallbacks
+        def g():
+            try:
+                yield _defer.fail(Failure(UserError(1)))
+            except Exception:
+                pass
+            yield Deferred.fromCoroutine(co())
+
+        async def co():
+            await _defer.succeed(1)
+        g()
+    finally:
+        _defer.setDebugging(False)
+
+
 def run_prog(prog, profile):
     old = sys.getrecursionlimit()
     sys.setrecursionlimit(1000)          # the default, whatever the embedding process chose
     w = None
+    olddbg = _defer.getDebugging()
     try:
         with warnings.catch_warnings():
             warnings.simplefilter("ignore")
+            if prog.get("dbg"):
+                _warm_debug()
+                _defer.setDebugging(True)
             w = _World(prog, profile)
             w.run(prog["ops"])
             st = w.state()
     finally:
+        _defer.setDebugging(olddbg)
         sys.setrecursionlimit(old)
         if w is not None:
             for d in w.ds:               # nothing is left to be reported as "Unhandled error in Deferred"
@@ -375,9 +490,17 @@ def _enc_list(xs, sep=","):
 
 
 def model_line(c):
-    if c["kind"] == "shape":
+    """The flags `dbg` (Deferred debugging on), `cls` (Deferred subclass instances) and `mk` (succeed()/fail() instead of
+    Deferred()+callback()) do not exist in the model: the prediction must be the same with and without them.
+    `nil` fires value 0 (= `None`); `B` (a failure outside `Exception`) is an ordinary failure to a callback chain;
+    only a GENERATOR meeting such a failure is outside the model (its body does not catch it): oracle-only."""
+    if c["kind"] == "shape" and not c.get("nil") and not (c.get("k", 0) == 2 and c["name"] in BASE_LAST):
         return f"shape {c['name']} {c['n']} {c.get('k', 0)}"
     p = expand(c)
+    if any(o[0] == "B" for o in p["ops"]):
+        if p["gens"]:
+            return None
+        p = dict(p, ops=[("E" + o[1:] if o[0] == "B" else o) for o in p["ops"]])
     defs = ";".join((",".join(d) if d else "_") for d in p["defs"]) if p["defs"] else "-"
     gens = ";".join(f"{g[0]}:{_enc_list(g[1])}" for g in p["gens"]) if p["gens"] else "-"
     return f"prog {20 * _size(p) + 200} {defs} {gens} {_enc_list(p['ops'])}"
@@ -400,10 +523,15 @@ def _fields(line):
 
 
 def _baseline(c, n):
-    key = (c["kind"], c["name"], c.get("k", 0), c.get("seed", 0), n)
+    key = (c["kind"], c["name"], c.get("k", 0), c.get("seed", 0), n) + tuple(c.get(fl, 0) for fl in FLAGS)
     if key not in _BASE:
         cc = dict(c); cc["n"] = n
-        _BASE[key] = run_impl(cc)
+        try:
+            _BASE[key] = run_impl(cc)
+        except BaseException as e:       # (UserBaseError escaping a broken _inlineCallbacks is not an `Exception`)
+            if type(e).__name__ == "Timeout":
+                raise
+            _BASE[key] = f"!raised {type(e).__name__}"
     return _BASE[key]
 
 
@@ -412,18 +540,22 @@ def _expect(c, prog, f, line):
     name, n, k = c["name"], c["n"], c.get("k", 0)
     installed = sum(1 for d in prog["defs"] for cb in d if cb == "p") + sum(1 for o in prog["ops"] if o.endswith(":p")) \
         + sum(len(g[1]) for g in prog["gens"])
+    if name == "genbase" and n:
+        installed -= 1                   # the last await raises out of the body: no probe after it
+    nil = c.get("nil")
     ran = sum(int(x.split(":")[1]) for x in f["probes"].split(",")) if f["probes"] != "-" else 0
     if ran != installed:
         return f"{ran} of {installed} probes ran"
     ends = f["ends"].split(",")
     if name in ("outer", "inner", "perm", "evenodd", "lastmid", "paused", "pausedinner", "late"):
-        fails = k == 1 and name in ("outer", "inner", "perm", "evenodd", "lastmid")
-        want = "c1p0k0" + ("f5" if fails else "v1" if (name == "late" and k == 0 and n >= 2) else "v5")
+        fails = k in (1, 2) and name in BASE_LAST
+        want = "c1p0k0" + ("f5" if fails else "v0" if nil else "v1" if (name == "late" and k == 0 and n >= 2) else "v5")
         if ends[0] != want:
             return f"d_0 ended as {ends[0]}, expected {want}"
-    if name in ("gen", "coro", "genlater", "corolater", "genmixed", "coromixed", "yfmixed", "genchain"):
-        if ends[-1] != "c1p0k0v7":
-            return f"the generator's Deferred ended as {ends[-1]}, expected c1p0k0v7"
+    if name in ("gen", "coro", "genlater", "corolater", "genmixed", "coromixed", "yfmixed", "genchain", "gensame", "genplain", "genbase"):
+        want = "c1p0k0fb9" if (name == "genbase" and n) else "c1p0k0v7"
+        if ends[-1] != want:
+            return f"the generator's Deferred ended as {ends[-1]}, expected {want}"
     for s in f["state"].split(","):
         m = _STATE.match(s)
         if not m or m.group(4).startswith("d") or m.group(2) != "0" or m.group(3) != "0" or m.group(1) != "1":
@@ -447,7 +579,11 @@ def oracle(c, out):
     if c["n"] < N0:
         return None
     # stack usage must not grow with the length: nothing may be deeper than in the same family at n = 10 … 24
-    bs = [_fields(_baseline(c, n0)) for n0 in BASELINES]
+    raw = [_baseline(c, n0) for n0 in BASELINES]
+    for n0, b in zip(BASELINES, raw):
+        if b.startswith("!raised"):
+            return {"key": f"{name}-raised", "detail": f"{dict(c, n=n0)}: {b}"}
+    bs = [_fields(b) for b in raw]
     bmax = max(int(b["max"]) for b in bs)
     if int(f["max"]) > bmax:
         return {"key": f"{name}-depth-grows", "detail": f"{c}: probe depths {f['probes'][:200]} at n={c['n']}, but never deeper than {bmax} for n in 10..24"}
@@ -468,20 +604,37 @@ def _bucket(n):
 def tag(c, out):
     f = _fields(out) if not out.startswith("!") else {}
     depths = ",".join(x.split(":")[0] for x in f.get("probes", "-").split(","))
+    flags = "".join(fl[0] for fl in FLAGS if c.get(fl))
     if c["kind"] == "prog":
-        cbs = "".join(sorted({cb[0] for d in c["defs"] for cb in d} | {o[0] for o in c["ops"]}))
-        return f"prog:{cbs}:g{len(c['gens'])}:d[{depths}]:r{f.get('raised', '!')}"
-    return f"{c['kind']}:{c['name']}:k{c.get('k', 0)}:{_bucket(c['n'])}:d[{depths}]"
+        cbs = "".join(sorted({cb[0] for d in c["defs"] for cb in d} | {o[0] for o in c["ops"]} | {it[0] for g in c["gens"] for it in g[1]}))
+        return f"prog:{cbs}:g{len(c['gens'])}:{flags}:d[{depths}]:r{f.get('raised', '!')}"
+    return f"{c['kind']}:{c['name']}:k{c.get('k', 0)}:{flags}:{_bucket(c['n'])}:d[{depths}]"
 
 
 def nontrivial(c, out):
     return True
 
 
-FAMILIES = [("perm", [0, 1]), ("evenodd", [0, 1]), ("lastmid", [0, 1]), ("paused", [2, 3, 7]), ("pausedinner", [2, 5]),
+FAMILIES = [("perm", [0, 1, 2]), ("evenodd", [0, 1, 2]), ("lastmid", [0, 1, 2]), ("paused", [2, 3, 7]), ("pausedinner", [2, 5]),
             ("late", [0, 1]), ("fanin", [0, 1, 2]), ("faninwait", [0, 3]), ("genlater", [0, 1, 2]), ("corolater", [0, 2]),
-            ("genmixed", [0, 3]), ("coromixed", [0, 2]), ("yfmixed", [0, 2]), ("genchain", [0, 1, 2, 3])]
-SHAPES = [("outer", [0, 1]), ("inner", [0, 1]), ("gen", [0, 1, 2, 3]), ("coro", [0, 1, 2, 5])]
+            ("genmixed", [0, 3]), ("coromixed", [0, 2]), ("yfmixed", [0, 2]), ("genchain", [0, 1, 2, 3]),
+            ("gensame", [0, 1, 2, 3]), ("genplain", [0, 1, 2, 3]), ("genbase", [0, 1])]
+SHAPES = [("outer", [0, 1, 2]), ("inner", [0, 1, 2]), ("gen", [0, 1, 2, 3]), ("coro", [0, 1, 2, 5])]
+HAS_PRE = {"gen", "coro", "late", "fanin", "gensame", "genplain", "genbase"}       # families with already-fired Deferreds (`mk`)
+
+
+def _flagged(rng, name, n, dbgmax):
+    """the same family under each global mode / input class the statement does not exclude, one at a time and combined"""
+    for fl in FLAGS + ("combo",):
+        if fl == "mk" and name not in HAS_PRE:
+            continue
+        if fl == "dbg" and n > dbgmax:
+            continue
+        if fl == "combo":
+            fs = {x: 1 for x in FLAGS if rng.random() < 0.6 and not (x == "dbg" and n > dbgmax) and not (x == "mk" and name not in HAS_PRE)}
+        else:
+            fs = {fl: 1}
+        yield fs
 
 
 def corpus():
@@ -499,7 +652,29 @@ def corpus():
         {"kind": "prog", "defs": [["r1", "p"], ["p"]], "gens": [], "ops": ["F0:1", "F0:2", "E1:4"]},
         {"kind": "prog", "defs": [["r1", "p"], ["x3", "p"]], "gens": [], "ops": ["P1", "F1:2", "F0:1", "U1"]},
         {"kind": "prog", "defs": [[], [], []], "gens": [[2, ["y0", "a1"]]], "ops": ["S0", "P1", "F1:2", "F0:1", "U1", "A2:p"]},
+        # a callback returns a Deferred that is in the middle of its own callbacks (fix aeb58d6, witness 2)
+        {"kind": "prog", "defs": [["r1", "r1", "p"], []], "gens": [], "ops": ["F0:1", "A1:c7", "F1:5"]},
+        # a plain value yielded between two Deferreds, one awaited twice
+        {"kind": "prog", "defs": [[], [], []], "gens": [[2, ["y0", "v5", "y0", "v0", "a1"]]], "ops": ["F0:0", "S0", "A2:p", "E1:2"]},
     ]
+    # witnesses of the mutation audit (harness/mutants/C02): result None, Deferred debugging on, Deferred subclasses,
+    # succeed()/fail(), non-Deferred yields, the same Deferred awaited again, a failure outside `Exception`
+    for name in ("outer", "inner", "gen", "coro"):
+        kind = "shape"
+        for fl in FLAGS:
+            if fl == "mk" and name not in HAS_PRE:
+                continue
+            for n in (3, 20, 100):
+                cs.append({"kind": kind, "name": name, "n": n, "k": 0, fl: 1})
+                cs.append({"kind": kind, "name": name, "n": n, "k": 1, fl: 1})
+    for name, ks in (("gensame", [0, 1, 2, 3]), ("genplain", [0, 1, 2, 3]), ("genbase", [0, 1]), ("fanin", [0, 2]), ("late", [0, 1])):
+        for k in ks:
+            for n in (0, 1, 2, 5, 20, 100):
+                cs.append({"kind": "family", "name": name, "n": n, "k": k, "seed": 1})
+            cs.append({"kind": "family", "name": name, "n": 30, "k": k, "seed": 1, "dbg": 1, "cls": 1, "nil": 1, "mk": 1})
+    for name in ("outer", "inner"):
+        for n in (0, 1, 20, 100):
+            cs.append({"kind": "shape", "name": name, "n": n, "k": 2})
     return cs
 
 
@@ -524,6 +699,10 @@ def _rand_prog(rng):
         for g in gens:
             kind = rng.choice("ya")
             g[1] = [kind + it[1:] for it in g[1]]
+    for g in gens:                       # things that are not Deferreds yielded in between (generators only)
+        if rng.random() < 0.3 and not (g[1] and all(it[0] == "a" for it in g[1])):
+            for _ in range(rng.randint(1, 2)):
+                g[1].insert(rng.randint(0, len(g[1])), f"v{rng.choice([0, 5])}")
     ops, started, npause = [], [], {}
     pending = list(range(ng))
     for _ in range(rng.randint(1, 14)):
@@ -533,9 +712,9 @@ def _rand_prog(rng):
         if pending and r < 0.2:
             g = pending.pop(0); started.append(g); ops.append(f"S{g}")
         elif r < 0.55:
-            ops.append(f"F{rng.randrange(nd)}:{rng.randint(1, 9)}")
+            ops.append(f"F{rng.randrange(nd)}:{rng.choice([0, 0, 1, 2, 3, 4, 5, 6, 7, 8, 9])}")      # 0 is None
         elif r < 0.65:
-            ops.append(f"E{rng.randrange(nd)}:{rng.randint(1, 9)}")
+            ops.append(f"{'B' if (ng == 0 and rng.random() < 0.3) else 'E'}{rng.randrange(nd)}:{rng.randint(1, 9)}")
         elif r < 0.75:
             npause[i] = npause.get(i, 0) + 1
             ops.append(f"P{i}")
@@ -545,7 +724,11 @@ def _rand_prog(rng):
                 ops.append(f"U{i}")
         else:
             ops.append(f"A{i}:{cb()}")
-    return {"kind": "prog", "defs": defs, "gens": gens, "ops": ops}
+    c = {"kind": "prog", "defs": defs, "gens": gens, "ops": ops}
+    for fl in ("dbg", "cls", "api"):
+        if rng.random() < 0.15:
+            c[fl] = 1
+    return c
 
 
 def generate(rng, tier):
@@ -559,10 +742,22 @@ def generate(rng, tier):
                 yield {"kind": "family", "name": name, "n": n, "k": k, "seed": rng.randrange(1000)}
     for n in (7, 33, 64, 100):
         yield {"kind": "shape", "name": "explicit", "n": n, "k": 0}
-    for _ in range(40 if tier == "quick" else 400):
+    # the same families under Deferred debugging / with Deferred subclasses / with None results / with succeed(), fail()
+    dbgmax = 300 if tier == "quick" else 1000
+    for n in [11, 37, 300, 1000] + ([3000, 20000] if tier == "thorough" else []):
+        for name, ks in SHAPES + FAMILIES:
+            fss = list(_flagged(rng, name, n, dbgmax))
+            for fs in (fss if n < 20000 else [rng.choice(fss)]):
+                yield dict({"kind": "shape" if (name, ks) in SHAPES else "family", "name": name, "n": n,
+                            "k": rng.choice(ks), "seed": rng.randrange(1000)}, **fs)
+    for _ in range(60 if tier == "quick" else 300):
         name, ks = rng.choice(FAMILIES)
-        yield {"kind": "family", "name": name, "n": rng.choice([0, 1, 2, 3, 4, 5, 6, 9, 10, 17, 31, 64, 150]),
-               "k": rng.choice(ks), "seed": rng.randrange(1000)}
+        c = {"kind": "family", "name": name, "n": rng.choice([0, 1, 2, 3, 4, 5, 6, 9, 10, 17, 31, 64, 150]),
+             "k": rng.choice(ks), "seed": rng.randrange(1000)}
+        for fl in FLAGS:
+            if rng.random() < 0.3 and not (fl == "mk" and name not in HAS_PRE):
+                c[fl] = 1
+        yield c
     for _ in range(1500 if tier == "quick" else 12000):
         yield _rand_prog(rng)
 
@@ -584,12 +779,19 @@ def shrink(c):
         for m in (n // 10, n // 2, n - 1):
             if N1 < m < n:
                 yield dict(c, n=m)
+        for fl in FLAGS:
+            if c.get(fl):
+                yield {a: b for a, b in c.items() if a != fl}
 
 
 def search(rng, tier, disagreeing):
     """a depth that grows with n is the witness: sweep every in-scope family at sizes up to the recursion limit's reach"""
     for name, ks in SHAPES + FAMILIES:
         for k in ks:
+            kind = "shape" if (name, ks) in SHAPES else "family"
             for n in (30, 100, 400, 2000):
-                kind = "shape" if (name, ks) in SHAPES else "family"
                 yield {"kind": kind, "name": name, "n": n, "k": k, "seed": 1}
+            for n in (30, 400):
+                for fl in FLAGS:
+                    if not (fl == "mk" and name not in HAS_PRE):
+                        yield {"kind": kind, "name": name, "n": n, "k": k, "seed": 1, fl: 1}
